@@ -253,7 +253,7 @@ def main():
                 'error; distinct = distinct (top op code or function, result type) cell.')
     chk.assumptions = ['the general XObjectPtr result with XObject::boolean/num/str is the reference', 'node-list entry is defined only for node-set expressions']
     chk.ensure('plain', 'xvdrv')
-    n = 400 if chk.tier == 'quick' else 150000
+    n = 1500 if chk.tier == 'quick' else 150000
     chk.run_cases('c11', 'case', range(n))
     chk.run_cases('c11', 'xslt_case', range(n if chk.tier == 'quick' else n // 15))
     cells = [k for k in chk.stats if k.startswith('cell_')]
